@@ -11,7 +11,7 @@ from vlib import evlog, sched
 PROPERTY = "C10"
 REPLAY_REPEATS = 10
 LEVEL = "exploration"
-JOBS = 14
+JOBS = 8
 CASE_TIMEOUT = 240
 RULE = (
     "one case = one history: N in 2..8 real processes x M in 1..6 updates each of the SAME tile through PyramidIO.update_image, "
@@ -52,9 +52,19 @@ def cases(tier, seed):
         out.append(dict(t="hist", fmt=fmt, mode=mode, N=R.choice([4, 6, 8]), M=R.choice([1, 1, 2]), layout=R.choice(["disjoint", "disjoint", "common"]),
                         pos=[0, 0, 0], maxdelay=R.choice([0.0, 0.005, 0.02]), seed=R.randrange(1 << 30), prior="none", mixfmt=False, longhold=False,
                         pause_after_release=False, linedelay=True))
+    for i in range(2 if tier == "quick" else 20):
+        fmt, mode = combos[(i * 7) % len(combos)]
+        out.append(dict(t="hist", fmt=fmt, mode=mode, N=3, M=2, layout="disjoint", pos=[0, 0, 0], maxdelay=0.005, seed=R.randrange(1 << 30), prior="none", mixfmt=False,
+                        longhold=False, pause_after_release=False, linedelay=False, realhold=True))
     for i in range(10 if tier == "quick" else 200):
         out.append(dict(t="stage", kind=["mtan", "mwcs"][i % 2], n=R.choice([3, 4, 6]), par=R.choice([2, 3, 4]), size=R.choice([200, 256, 400]),
-                        profile=R.choice(["natural", "slow_workers", "jitter"]), seed=R.randrange(1 << 30)))
+                        profile=R.choice(["natural", "slow_workers", "jitter", "one_late", "one_late"]), seed=R.randrange(1 << 30)))
+        if out[-1]["profile"] == "one_late":
+            out[-1].update(par=R.choice([3, 4]), n=R.choice([6, 8]))
+    for i in range(10 if tier == "quick" else 150):
+        # one worker starts to run while its siblings are already inside updates of a shared tile
+        out.append(dict(t="stage", kind=["mtan", "mtan", "mtan", "mtan", "mwcs"][i % 5], n=R.choice([6, 8]), par=R.choice([3, 4]), size=R.choice([200, 256, 400]),
+                        profile="one_late", seed=R.randrange(1 << 30)))
     for i in range(8 if tier == "quick" else 120):
         out.append(dict(t="sampling", fmt=R.choice(["npy", "fits", "png"]), depth=R.choice([1, 1, 2]), seed=R.randrange(1 << 30), parts=R.choice([2, 3])))
     for s in out:
@@ -186,6 +196,8 @@ def _updater(spec, base, idx, go_path):
                     time.sleep(R.random() * spec["maxdelay"])
                 if spec.get("longhold") and idx == 0 and j == 0:
                     time.sleep(0.35)  # = 105 s of dilated monotonic time
+                if spec.get("realhold") and idx == 0 and j == 0:
+                    time.sleep(2.6)  # wall-clock ages (file mtimes against time.time) cannot be dilated: hold for real
                 img.update_into_maskable_buffer(basis, slice(None), slice(None), slice(None), slice(None))
                 evlog.ev("upd_body_done", cid=cid)
             evlog.ev("upd_ret", cid=cid)
@@ -466,7 +478,10 @@ def case_stage(spec, workdir):
     log = os.path.join(workdir, "log")
     evlog.open_log(log)
     instr_mp.install(spec["profile"], spec["seed"])
-    sched.install(spec["seed"], p=0.05, files=("pyramid.py",), lo=0.002, hi=0.12, budget=2.5)
+    if spec["profile"] == "one_late":
+        sched.install(spec["seed"], p=0.10, files=("pyramid.py",), lo=0.01, hi=0.15, budget=4.0)  # long updates: somebody always holds, somebody waits
+    else:
+        sched.install(spec["seed"], p=0.05, files=("pyramid.py",), lo=0.002, hi=0.12, budget=2.5)
     pio = PyramidIO(out, default_format="fits")
     b = Builder(pio)
     if spec["kind"] == "mtan":
